@@ -528,7 +528,7 @@ class Executor:
             if v is not None:
                 return v
             if getattr(cands[0], "simple", None) is None:
-                v = self.run_const(cands[0])  # aggregates (const arrays / tuples)
+                v = self.run_const(cands[0])  # aggregates (const arrays / tuples), arithmetic constant expressions
                 if v is not None:
                     return self.copy_value(v)
         m = re.fullmatch(r"(?:\w+::)*(\w+)::(MAX|MIN)", t) or re.fullmatch(r"(?:core|std)::num::<impl (\w+)>::(MAX|MIN)", t)
@@ -546,16 +546,25 @@ class Executor:
             fr = Frame(b, 0)
             st.frames.append(fr)
             bb = "bb0"
-            for _ in range(8):
+            for _ in range(32):
                 blk = b.blocks[bb]
                 for stt in blk.stmts:
                     self.exec_stmt(st, stt)
                 if blk.term[0] == "return":
                     c = fr.locals.get("_0")
-                    return c.v if c is not None else None
+                    v = c.v if c is not None else None
+                    if isinstance(v, I):
+                        v = I(z3.simplify(v.bv), v.signed)
+                    return v
                 if blk.term[0] == "goto":
                     bb = blk.term[1]
                     continue
+                if blk.term[0] == "assert":
+                    # constant expressions: the overflow asserts of `const N: usize = 32 + 32 + ...` are decided by the compiler; follow the success edge
+                    tgt = blk.term[-1].get("success") if isinstance(blk.term[-1], dict) else None
+                    if tgt:
+                        bb = tgt
+                        continue
                 return None
         except (Unsupported, PathEnd, KeyError):
             return None
@@ -1148,6 +1157,7 @@ class Executor:
     STD_MUTATOR_RE = re.compile(r"^(?:std::(?:vec|collections)::)?(?:Vec|VecDeque|AHashMap|HashMap|AHashSet|HashSet|LinkedList|BTreeMap|BTreeSet)::<.*>::"
                                 r"(remove|swap_remove|retain|retain_mut|clear|drain|truncate|pop|pop_front|pop_back|push|push_front|push_back|insert|append|extend|extend_from_slice|dedup|dedup_by_key|"
                                 r"sort|sort_by|sort_unstable|sort_unstable_by|sort_by_key|reverse|resize|split_off|swap|fill|remove_entry|take)(?:::<.*>)?$")
+    STD_CALLEE_RE = re.compile(r"^(?:core|std|alloc)::|^<[^>]*\bas (?:core|std|alloc)::|^<&?(?:mut )?(?:u8|u16|u32|u64|u128|usize|i8|i16|i32|i64|i128|isize|bool|String|str)\b|^(?:Vec|VecDeque|String|Option|Result|Box|Rc|Arc|Cell|RefCell|AHashMap|HashMap|AHashSet|HashSet|BTreeMap|LinkedList)::<")
     ALLOC_RE = re.compile(r"(?:Vec|VecDeque|String|AHashMap|HashMap|AHashSet|HashSet)(?:::<(.*)>)?::(?:with_capacity|reserve|reserve_exact|resize)$|vec::from_elem::<(.*)>$")
 
     def exec_call(self, st, term, outcomes):
@@ -1249,6 +1259,18 @@ class Executor:
                 raise Unsupported("unmodelled mutation of a modelled container: %s" % callee[:100])
         res = self.fresh("ret:" + self.strip_generics(callee).split("::")[-1], dest_ty)
         frame_preserving = any(re.search(p, callee) for p in self.pure)
+        if frame_preserving and self.STD_CALLEE_RE.search(callee):
+            # the frame assumption is a statement about the crate's own callees; a std / core function that is handed a
+            # `&mut` to a value this exploration tracks precisely may well change it (operator traits, mem::swap, ...)
+            for a in args:
+                if isinstance(a, Ref) and a.mut:
+                    try:
+                        tgt = self.get_path(a.cell, a.path)
+                    except Exception:
+                        tgt = None
+                    if isinstance(tgt, (I, z3.BoolRef, Bytes, Seq, MapV)):
+                        frame_preserving = False
+                        break
         for a in args:
             if frame_preserving:
                 break
